@@ -184,6 +184,11 @@ impl Generator {
 
             // PUT operations - need something to memoize (and not MARK)
             Put | BinPut | LongBinPut | Memoize => {
+                // BINPUT's index is a single byte: once the memo holds 256 entries the next
+                // free index no longer fits and would wrap onto an already defined one
+                if opcode == BinPut && self.state.memo.len() >= 256 {
+                    return false;
+                }
                 self.state.stack.len() >= 1
                     && self
                         .peek()
